@@ -1,5 +1,9 @@
 import CCVerif.Model.Schema
 import CCVerif.Lemmas.Schema
+import CCVerif.Lemmas.SchemaGen
+import CCVerif.Lemmas.SchemaGenFrag
+import CCVerif.Lemmas.SchemaGenSim
+import CCVerif.Lemmas.CheckerAnalysis
 /-!
 # C07 — incremental schema re-analysis equals analysis from scratch after any edits
 -/
@@ -120,3 +124,193 @@ example : ∀ k, AliasesDistinct (run false (histMixed.take k)) := by
 example : ¬ AdmissibleFrom {} histDup := by decide
 
 end CCVerif.Schema
+
+/-! # The same for ANY per-constituent analysis that satisfies the frame laws
+
+`Model/SchemaGen.lean` is the machine of `Model/Schema.lean` with the analysis as a parameter
+`A : Analysis D I` (`mentions`: what the graph updater extracts from a definition; `analyse skel ctx c`:
+the entry `ParseCst` stores, computed from the store-without-definitions `skel` and the context
+`ctx : name → Option entry`). `Lawful A` are the frame hypotheses:
+
+* `frame`: `analyse` reads `ctx` only at `mentions c.defn`, and does not tell apart two
+  unsuccessful entries of an existing constituent (reset / failed) — but it MAY tell a name that
+  denotes nothing from a name whose constituent has no successful entry, as the code does;
+* `strict`: a mentioned constituent without a successful entry makes the analysis unsuccessful;
+* `reset_not_ok`: a reset entry is not a successful one. -/
+namespace CCVerif.SchemaGen
+
+/-- **C07, generic.** For every analysis satisfying the frame laws and every admissible history
+(no `load`; whenever a constituent is erased, no other constituent carries its alias) the incremental
+state reports the same entry per constituent and the same dependency edges as the analysis from
+scratch of the same content. -/
+theorem incremental_eq_scratch_generic {D I : Type} [DecidableEq D] (A : Analysis D I)
+    (hA : Lawful A) (ops : List (Op D)) (ha : AdmissibleFrom A {} ops) :
+    (run A ops).report A = ((run A ops).scratch A).report A ∧
+    (run A ops).depEdges A = ((run A ops).scratch A).depEdges A :=
+  (WF.run hA ha).observables hA
+
+/-- the same for histories along which aliases stay pairwise distinct (the discipline of `RSCore`) -/
+theorem incremental_eq_scratch_generic_of_distinct_aliases {D I : Type} [DecidableEq D]
+    (A : Analysis D I) (hA : Lawful A) (ops : List (Op D)) (hl : ∀ op ∈ ops, ∀ c, op ≠ .load c)
+    (hd : ∀ k, AliasesDistinct (run A (ops.take k))) :
+    (run A ops).report A = ((run A ops).scratch A).report A ∧
+    (run A ops).depEdges A = ((run A ops).scratch A).depEdges A :=
+  incremental_eq_scratch_generic A hA ops (admissibleFrom_of_distinct ops {} hl hd)
+
+/-- what the incremental state holds, declaratively: the entry of every constituent is its `Final`
+entry (the analysis against a context in which every mentioned constituent that has a successful
+entry `Val` — least solution — shows it and every other one shows an unsuccessful entry; a function
+of the store by the laws), and the dependency graph is current -/
+theorem incremental_declarative_generic {D I : Type} [DecidableEq D] (A : Analysis D I)
+    (hA : Lawful A) (ops : List (Op D)) (ha : AdmissibleFrom A {} ops) :
+    (∀ u ∈ uids (run A ops).store, Final A (run A ops).store u ((run A ops).infoFor A u)) ∧
+    (∀ u i, Val A (run A ops).store u i → (run A ops).infoFor A u = i) ∧
+    GraphCur A (run A ops).store (run A ops).graph := by
+  have h := WF.run hA ha
+  refine ⟨h.sync, fun u i hv => ?_, h.cur⟩
+  exact (h.sync u hv.mem).eq_val hA h.base.nodup hv
+
+/-- the entries of a complete analysis are a function of the store: two states with the same store
+whose entries are all `Final` agree (this is what makes "from scratch" well defined whatever order
+`TopologicalOrder` picks on cyclic parts) -/
+theorem final_unique {D I : Type} (A : Analysis D I) (hA : Lawful A) {s : List (Cst D)}
+    (hn : (uids s).Nodup) {u : Nat} {i j : I} (h1 : Final A s u i) (h2 : Final A s u j) : i = j :=
+  h1.unique hA hn h2
+
+/-- the fragment machine of `Model/Schema.lean` IS the instance `fragA` of the generic machine
+(`toG`: the same state with the constituents re-packed), step by step -/
+theorem fragment_is_instance (st : Schema.St) (op : Schema.Op) :
+    toG (Schema.step false st op) = step fragA (toG st) (opG op) := toG_step st op
+
+/-- **C07 for the fragment, as a corollary of the generic theorem** (`fragA_lawful` discharges the
+frame hypotheses; nothing of the fragment-specific development `Lemmas/Schema.lean` §3–§9 is used) -/
+theorem incremental_eq_scratch_from_generic (ops : List Schema.Op) (ha : Schema.AdmissibleFrom {} ops) :
+    (Schema.run false ops).report = (Schema.run false ops).scratch.report ∧
+    (Schema.run false ops).depEdges = (Schema.run false ops).scratch.depEdges :=
+  incremental_eq_scratch_via_generic ops ha
+
+/-! ## the frame hypotheses discharged for the type-checker model of C03
+
+`Lemmas/CheckerFrame*.lean` prove, by induction over the rules of `Model/Checker.lean`, that
+`check Γ e` reads the context only at the global names at VISITED positions of `e`
+(`usedGlobals e`; for trees of the grammar's shape these are all global names occurring in `e`),
+and that an accepting run has found a type for each of them. `checkerA` (`Lemmas/CheckerAnalysis.lean`)
+is the analysis "build `alias :== body` as `CheckConstituenta` does, run `check` in the context
+`TypeFor` / `FunctionArgsFor` offer, keep type and declared arguments"; a definition is `none`
+(empty text) or `some body`. -/
+
+open CCVerif.Checker in
+/-- FRAME of the checker: the result depends on `Γ.types` / `Γ.funcs` only at the global names at
+visited positions (never on the entry of the declared name itself), on `Γ.traits` and on
+`Γ.isTypification` -/
+theorem checker_frame {Γ Γ' : Types.Ctx} {e : Syntax.Ast}
+    (ht : ∀ n ∈ usedGlobals e, Types.lookup Γ.types n = Types.lookup Γ'.types n)
+    (hf : ∀ n ∈ usedGlobals e, Types.lookup Γ.funcs n = Types.lookup Γ'.funcs n)
+    (htr : Γ.traits = Γ'.traits) (hty : Γ.isTypification = Γ'.isTypification) :
+    check Γ e = check Γ' e :=
+  check_frame_used ht hf htr hty
+
+open CCVerif.Checker in
+/-- STRICTNESS of the checker: an accepting run has found a type for every global name at a visited
+position; on trees of the grammar's shape (`Wf.wf`, the executable grammar of `Model/WfAst.lean`)
+these are all global names occurring in the tree -/
+theorem checker_strict {Γ : Types.Ctx} {e : Syntax.Ast} {t : Types.ExprTy}
+    (h : (check Γ e).out = .ok t) :
+    (∀ n ∈ usedGlobals e, (Types.lookup Γ.types n).isSome = true) ∧
+    (∀ c, Wf.wf c e = true → ∀ n ∈ globalsOf e, (Types.lookup Γ.types n).isSome = true) :=
+  ⟨check_strict h, fun _ hw => check_strict_wf hw h⟩
+
+/-- the checker model satisfies the frame laws of the generic machine, whatever `TraitsFor` does
+with the store-without-definitions -/
+theorem checker_lawful (traitsOf : Skel → Types.TraitEnv) : Lawful (checkerA traitsOf) :=
+  checkerA_lawful traitsOf
+
+/-- **C07 with the per-constituent analysis instantiated by the C03 checker model**: for every
+admissible history of schemas whose definitions are arbitrary syntax trees, the incremental state
+equals the analysis from scratch (type and declared arguments per constituent, dependency edges) -/
+theorem incremental_eq_scratch_checker (traitsOf : Skel → Types.TraitEnv) (ops : List (Op CDef))
+    (ha : AdmissibleFrom (checkerA traitsOf) {} ops) :
+    (run (checkerA traitsOf) ops).report (checkerA traitsOf) =
+      ((run (checkerA traitsOf) ops).scratch (checkerA traitsOf)).report (checkerA traitsOf) ∧
+    (run (checkerA traitsOf) ops).depEdges (checkerA traitsOf) =
+      ((run (checkerA traitsOf) ops).scratch (checkerA traitsOf)).depEdges (checkerA traitsOf) :=
+  incremental_eq_scratch_generic (checkerA traitsOf) (checkerA_lawful traitsOf) ops ha
+
+/-- the context may as well be built from ALL names of the schema (what `Schema::TypeFor` offers):
+the checker's result is the one obtained from the mentions alone -/
+theorem checker_full_context (traits : Types.TraitEnv) (ctx : String → Option CInfo) (c : Cst CDef)
+    (tr : Syntax.Ast) (htr : cstTree c = some tr) (allNames : List String)
+    (h : ∀ n ∈ mentionsOf c.defn, n ∈ allNames) :
+    Checker.check (ctxToΓ traits ctx allNames) tr =
+      Checker.check (ctxToΓ traits ctx (Checker.usedGlobals tr)) tr :=
+  checkerA_full_context traits ctx c tr htr allNames h
+
+example : AdmissibleFrom (checkerA fun _ => []) {} histChecker := by decide +kernel
+
+/-! ## the strictness hypothesis cannot be dropped
+
+`negA`: a definition is the list of the names it mentions, an entry is a Boolean, and a constituent is
+accepted iff none of the constituents it mentions is. It satisfies `reset_not_ok` and `frame` but is
+not strict; on the two-cycle `D1 := D2`, `D2 := D1` the result depends on which of the two is analysed
+first, and `TriggerParse(D2)` starts with `D2` while `UpdateState` starts with `D1`. -/
+
+def negA : Analysis (List String) Bool where
+  mentions := fun d => d
+  rename := fun f d => d.map (fun n => (f n).getD n)
+  reset := false
+  ok := fun b => b
+  analyse := fun _ ctx c => c.defn.all (fun m => ctx m != some true)
+
+theorem negA_frame (sk : Skel) (ctx ctx' : String → Option Bool) (c : Cst (List String))
+    (h : ∀ m ∈ negA.mentions c.defn, Sim negA (ctx m) (ctx' m)) :
+    negA.analyse sk ctx c = negA.analyse sk ctx' c := by
+  show c.defn.all (fun m => ctx m != some true) = c.defn.all (fun m => ctx' m != some true)
+  have hm : ∀ m ∈ c.defn, ctx m = ctx' m := by
+    intro m hm
+    rcases h m hm with e | ⟨i, j, e1, e2, hi, hj⟩
+    · exact e
+    · have hi' : i = false := hi
+      have hj' : j = false := hj
+      rw [e1, e2, hi', hj']
+  generalize c.defn = l at hm
+  induction l with
+  | nil => rfl
+  | cons x xs ih =>
+    rw [List.all_cons, List.all_cons, hm x (by simp), ih (fun m hm' => hm m (List.mem_cons_of_mem _ hm'))]
+
+def histNeg : List (Op (List String)) :=
+  [.insert ⟨1, "D1", .term, ["D2"]⟩, .insert ⟨2, "D2", .term, ["D1"]⟩, .setDef 2 ["D1", "D1"]]
+
+theorem incremental_needs_strict_counterexample :
+    negA.ok negA.reset = false ∧ AdmissibleFrom negA {} histNeg ∧
+    (run negA histNeg).report negA = [(1, false), (2, true)] ∧
+    ((run negA histNeg).scratch negA).report negA = [(1, true), (2, false)] := by
+  refine ⟨rfl, by decide, by decide, by decide⟩
+
+/-! non-vacuity: the fragment of `Model/Schema.lean` is an instance (`fragA_lawful`), so is the
+unrelated height analysis; admissible histories with an incremental re-analysis over a cycle -/
+
+example : Lawful fragA := fragA_lawful
+example : Lawful heightA := heightA_lawful
+
+def gHist : List (Op Schema.Def) :=
+  [.insert ⟨1, "X1", .base, .empty⟩, .insert ⟨2, "D1", .term, .union ["X1"]⟩,
+   .insert ⟨3, "D2", .term, .union ["D1", "X1"]⟩, .setDef 2 (.union ["D2"]),
+   .setAlias 1 "X2" true, .substitute [("D1", "D3")], .setDef 2 (.union ["X2"]), .erase 1,
+   .updateState]
+
+example : AdmissibleFrom fragA {} gHist := by decide
+example : (run fragA gHist).report fragA =
+    [(2, { status := .incorrect, ty := none }), (3, { status := .incorrect, ty := none })] := by decide
+
+def hHist : List (Op (List String)) :=
+  [.insert ⟨1, "X1", .base, []⟩, .insert ⟨2, "D1", .term, ["X1"]⟩,
+   .insert ⟨3, "D2", .term, ["D1", "X1"]⟩, .insert ⟨4, "D3", .term, ["D2", "X9"]⟩,
+   .setDef 2 ["D2"], .setDef 2 ["X1", "X1"], .erase 4]
+
+example : AdmissibleFrom heightA {} hHist := by decide
+example : (run heightA hHist).report heightA = [(1, some 1), (2, some 2), (3, some 3)] := by decide
+example : (run heightA (hHist.take 5)).report heightA = [(1, some 1), (2, none), (3, none), (4, none)] := by
+  decide
+
+end CCVerif.SchemaGen
